@@ -1,5 +1,6 @@
 """C07 - a rejected mutation leaves the file exactly as it was."""
 import copy
+import os
 
 import numpy as np
 from hypothesis import strategies as st
@@ -85,6 +86,40 @@ def bad_format_block(t):
     blk.format = {"data3D": d3.Data3dBlockFormat.byFrame, "emg": em.EMGBlockFormat.byFrame, "force3D": f3.ForceTorque3DBlockFormat.byFrame,
                   "platData": pd.ForcePlatformBlockFormat.byFrameISSFormat, "data2D": d2.Data2DBlockFormat.RTSFormat}[t]
     return blk
+
+
+def look_alike(name):
+    """a user-defined Block subclass that is NOT the library's class for its type but carries everything the container asks of a
+    block (type tag, format, dates, nBytes, _write). Whether the container accepts it is its own business - but if it refuses,
+    the refusal must be clean like any other."""
+    from basictdf.tdfBlock import Block, BlockType
+
+    real = specs.build(labelled_spec(name, 1) if name in LABELLED or name in ("platData", "data2D") else container_min(name))
+    data = specs.lib_write(real)
+
+    class Foreign(Block):
+        type = BlockType(reftdf.TYPE_CODE[name])
+
+        def __init__(self):
+            super().__init__()
+            self.format = real.format
+            self.creation_date, self.last_modification_date = real.creation_date, real.last_modification_date
+
+        def __iter__(self):
+            return iter(())
+
+        @property
+        def nBytes(self):
+            return len(data)
+
+        def _write(self, stream):
+            stream.write(data)
+
+        @staticmethod
+        def _build(stream, format):
+            raise NotImplementedError("write-only look-alike")
+
+    return Foreign()
 
 
 def wrong_objects():
@@ -315,6 +350,47 @@ class Interp(container.ContainerInterp):
                 self.refused("unused-slot-between-live-blocks", "replace_block", lambda: t.replace_block(blk), must_raise=False)
                 if name in container.SETTERS:
                     self.refused("unused-slot-between-live-blocks", "setter", lambda: setattr(t, container.SETTERS[name], blk), must_raise=False)
+
+        # 10. a look-alike block object (own subclass of Block, not the library's class for that type): may be accepted - that is the
+        #     container's business - but a refusal has to leave everything alone. Tried on a scratch copy of the current file through a
+        #     second object, so that an accepted one does not end this history.
+        if self.hole is None and seed % 2 == 0:
+            for name in live_writable[:2]:
+                self.refused_on_copy("look-alike-block-object", "replace_block", lambda w: w.replace_block(look_alike(name)))
+                if name in container.SETTERS:
+                    self.refused_on_copy("look-alike-block-object", "setter", lambda w: setattr(w, container.SETTERS[name], look_alike(name)))
+            for name in (absent[:1] if free else []):
+                self.refused_on_copy("look-alike-block-object", "add_block", lambda w: w.add_block(look_alike(name)))
+
+    def refused_on_copy(self, cause, path, fn):
+        import shutil
+
+        from basictdf import Tdf
+
+        cp = os.path.join(self.dir, "scratch-copy.tdf")
+        shutil.copyfile(self.path, cp)
+        before = open(cp, "rb").read()
+        t2 = Tdf(cp)
+        raised = None
+        t2.allow_write()
+        t2.__enter__()
+        try:
+            try:
+                fn(t2)
+            except Exception as e:  # noqa
+                raised = e
+        finally:
+            t2.__exit__(None, None, None)
+        after = open(cp, "rb").read()
+        os.unlink(cp)
+        self.ctx.evaluations += 1
+        self.ctx.hist["cause:" + cause] += 1
+        self.ctx.hist[f"cell:{cause.split('-')[0]}|{path}|{self.state_class()}"] += 1
+        self.ctx.hist["look-alike:" + ("refused" if raised is not None else "accepted")] += 1
+        if raised is not None and after != before:
+            k = next((i for i in range(min(len(before), len(after))) if before[i] != after[i]), min(len(before), len(after)))
+            self.ctx.fail(f"{cause}/{path}/file-changed", f"{path} refused ({type(raised).__name__}: {str(raised)[:80]}) because of {cause}, but the file changed: "
+                                                          f"length {len(before)} -> {len(after)}, first difference at byte {k}; state {self.state_class()}, N={self.N}, {len(self.model)} live")
 
     def _apply(self, op):
         if op["op"] == "inject":
